@@ -40,6 +40,8 @@ PINS = [
     'mesonbuild.cargo.interpreter:Interpreter.resolve_package',
     'mesonbuild.cargo.interpreter:Interpreter._dep_package',
     'mesonbuild.cargo.interpreter:Interpreter._get_cfgs',
+    'mesonbuild.cargo.interpreter:Interpreter._prepare_package',
+    'mesonbuild.cargo.manifest:SystemDependency',
     'mesonbuild.cargo.interpreter:Interpreter._split_cfg',
     'mesonbuild.compilers.rust:RustCompiler.get_cfgs',
 ]
@@ -1633,6 +1635,12 @@ def run(ctx: Ctx) -> None:
     pairs = list(itertools.product(clean[:: max(1, len(clean) // ctx.scale(170, 500))], repeat=2))
     pairs += [(rng.choice(pool), rng.choice(pool)) for _ in range(ctx.scale(30000, 300000))]
     pairs += list(itertools.product(small, repeat=2)) + ORDER_CORPUS + [(b, a) for a, b in ORDER_CORPUS]
+    # 11.4.4 as a family: every pre-release against its one-identifier extensions (numeric 0 included), both orders
+    for s0 in clean:
+        b0 = s0.split('+')[0]
+        if semver_fields(s0)[1]:
+            for ext in ('0', '1', 'a'):
+                pairs += [(b0, b0 + '.' + ext), (b0 + '.' + ext, b0)]
     for a, b in pairs:
         x, y = V.SemVer(a), V.SemVer(b)
         ans = ''.join(str(int(z)) for z in (x < y, x > y, x <= y, x >= y, x == y, x != y))
@@ -1777,6 +1785,11 @@ def run(ctx: Ctx) -> None:
     # ---- 5. consumer objects (cached predicates, Cargo.lock resolution, cfg tables): operation histories
     run_objects(ctx, V, C, mex, add, parts)
 
+    # ---- 6. consumers on values: api strings vs caret ranges, Cargo.lock listing/resolution, target-specific
+    #         dependency tables, system-deps versions (harness/c20_consumers.py)
+    from . import c20_consumers
+    c20_consumers.run_consumers(ctx, V, C, mex, add)
+
     # ---- correspondence: model driver on the same inputs
     ctx.count(len(cases))
     if getattr(ctx, 'model_available', True):
@@ -1862,6 +1875,12 @@ def search(ctx: Ctx, disagreements: T.List[dict]) -> None:
     rel = ['%d.%d.%d' % v for v in itertools.product(VERS, repeat=3)]
     pool = semver_pool(rng, 400)
     clean = clean_pool(pool)
+    from . import c20_consumers
+    ckinds = {d.get('kind') for d in disagreements} & set(c20_consumers.KINDS)
+    if ckinds:
+        c20_consumers.search_consumers(ctx, ckinds)
+        if ctx.violations:
+            return
     for d in disagreements:
         kind, inp = d.get('kind'), d.get('input')
         strs = strings_of(inp)
@@ -1941,6 +1960,9 @@ def replay(ctx: Ctx, rep: dict) -> None:
     V, C, mex = impl()
     case = rep.get('case', {})
     print('replay', rep.get('what'), case)
+    from . import c20_consumers
+    if case.get('consumer') and c20_consumers.replay_consumer(ctx, case):
+        return
     if case.get('object') == 'manifest.Dependency' and 'ops' in case:
         from mesonbuild.cargo import manifest as M
         ops = [tuple(o) for o in case['ops']]
